@@ -35,6 +35,15 @@ package mvs
 //@   trusted
 //@   modifies heap, smap
 
+// The requirement edges handed to the MVS library: one edge per requirement name of the fetched
+// project's configuration, carrying that requirement's path and version (two names for one project
+// are two edges - their versions may differ, and the maximum must win).
+//@ func (*mvs.Resolver).resolveProject variant edges
+//@   requires r != nil
+//@   modifies heap, smap
+//@   loop 0: invariant one-edge-per-name: len(reqs) == rangeindex + 1 && config != nil
+//@   loop 0: step edge-is-the-requirement: when true ensures len(reqs) == old(len(reqs)) + 1 && (has(config.Requirements, name) ==> (reqs[old(len(reqs))].Path == config.Requirements[name].Path && reqs[old(len(reqs))].Version == config.Requirements[name].Version))
+
 // ---------------------------------------------------------------- C11: Upgrade / Previous
 
 // Upgrade: the newest listed version of the same major, never below the one asked about.
